@@ -23,8 +23,10 @@ typed boundary every successor is a typed boundary whose type is a supertype of 
 which it does not.
 
 Status: this file is the static half.  Leg W evaluates `typed` on every compiled program (failure key
-`W:untyped:<opcode>`).  The dynamic half — "typed ⇒ no `stackUnderflow` / `tracktoRange` / `textposRange`
-fault in any run" — is NOT proved; design.d/C10.md states the invariant it needs.
+`W:untyped:<opcode>`).  The dynamic half — "wf and typed ⇒ no fault of any kind in any run" — is proved in
+Lemmas/StackTypingSound.lean, StackTypingCases.lean, StackTypingStep.lean (Props/C10 `typed_no_discipline_fault`), and
+every program the writer emits has a typing in the sense of this file's `flow` (Lemmas/StackTypingEmit.lean, Props/C10
+`emit_has_typing`).
 -/
 import RegexVerif.Model.VM
 
